@@ -187,7 +187,7 @@ def proof_audit(prop, thorough=False):
         return res
     os.makedirs(OUT, exist_ok=True)
     cache = os.path.join(OUT, f"audit-{prop}.json")
-    key = lean_sources_hash()
+    key = "v2:" + lean_sources_hash()
     cached = None
     if os.path.exists(cache) and not thorough:
         try:
@@ -207,9 +207,9 @@ def proof_audit(prop, thorough=False):
         txt = p.stdout + p.stderr
         cached = {}
         # "'name' depends on axioms: [a, b]" or "'name' does not depend on any axioms"
-        for m in re.finditer(r"'([^']+)' depends on axioms: \[([^\]]*)\]", txt, re.S):
+        for m in re.finditer(r"'([^\n]+?)' depends on axioms: \[([^\]]*)\]", txt, re.S):
             cached[m.group(1)] = [a.strip() for a in m.group(2).replace("\n", " ").split(",") if a.strip()]
-        for m in re.finditer(r"'([^']+)' does not depend on any axioms", txt):
+        for m in re.finditer(r"'([^\n]+?)' does not depend on any axioms", txt):
             cached[m.group(1)] = []
         if p.returncode != 0:
             res["problems"].append("audit file failed to elaborate: " + txt[-800:])
